@@ -14,6 +14,12 @@ import numpy as np
 from .. import common, constrain_corr as cc, dating, gen
 from ..common import Result, Violation, f2h
 
+META = dict(
+    level='Lean theorems: a fixed (sample) node without child edges keeps its input time for every rounding and iteration count; the least-squares sweep never moves fixed nodes; with children it ends at max(input, child output + eps) (exact arithmetic, all iteration counts) / the bump fold (any rounding, iters=0). Tied bit-for-bit to numba; date() outputs with historical and ancestral samples checked.',
+    note='as C01; that fit.node_moments returns ts times for samples is covered by the output oracle only',
+    technique='sweep invariant (cavities of fixed endpoints are zero) + max-characterisation + bit-exact correspondence',
+    ref='§3 C03',
+)
 LEAN_PROPS = ["TsdateVerif.Props.C03"]
 LEAN_BUILD = ["TsdateVerif.Model.Proto"]
 ASSUMPTIONS = ["sample flag == `fixed` in constrain_ages (read from ts.nodes_flags)",
